@@ -125,7 +125,7 @@ func (ts *TermStore) mk(t *Term) *Term {
 				nc++
 			}
 		}
-		if nc >= 2 || (t.Op != OpMul && nc >= 1) {
+		if nc >= 2 || (t.Op != OpMul && !t.Args[1].IsConst() && t.W > 16) {
 			t.hasMul = true
 		}
 	}
